@@ -40,7 +40,16 @@ fn item_json(v: &Value) -> Value {
       }
     }
   }
+  // secondary labels (the nodes the relational rules of the rule selected) are printed like meta variables: text + range
+  let mut n_labels = 0;
+  if let Some(ls) = v["labels"].as_array() {
+    for m in ls {
+      n_labels += 1;
+      mvs.push(json!({"text": chars(m["text"].as_str().unwrap_or("")), "range": rng(&m["range"])}));
+    }
+  }
   json!({
+    "nlabels": n_labels,
     "file": v["file"].as_str().unwrap_or("").trim_start_matches("./"),
     "text": chars(v["text"].as_str().unwrap_or("")), "range": rng(&v["range"]),
     "lines": chars(v["lines"].as_str().unwrap_or("")),
@@ -60,7 +69,12 @@ fn run_case(c: &Case, scratch: &str, idx: usize) -> Value {
   if c.scan {
     let mut rule = json!({"id": "r", "language": c.lang, "severity": "warning", "message": "found $A", "rule": {"pattern": c.pattern}});
     if let Some(k) = &c.kind {
-      rule["rule"] = json!({"kind": k});
+      rule["rule"] = match (k.split_once('>'), k.split_once('<')) {
+        // `a>b`: an `a` that has a `b` below it; `a<b`: an `a` inside a `b` - the JSON record carries `labels` then
+        (Some((a, b)), _) => json!({"kind": a, "has": {"kind": b, "stopBy": "end"}}),
+        (_, Some((a, b))) => json!({"kind": a, "inside": {"kind": b, "stopBy": "end"}}),
+        _ => json!({"kind": k}),
+      };
     }
     if let Some(r) = &c.rewrite {
       rule["fix"] = json!(r);
@@ -250,6 +264,12 @@ pub fn drive(corpus: &str, seed: u64, out: &str, thorough: bool) {
       cases.push(Case { id: format!("shape-{lang}-{k}"), files: vec![(format!("src/t.{ext}"), text.to_string())], lang, pattern: String::new(), rewrite: None, ctx, style, scan: true, kind: Some(k.to_string()) });
     }
   }
+  // relational rules: every record carries the secondary labels of its match
+  let reltext = "é(1, [2, \"中\"]);\nfoo(\n  3,\r\n  bar(4, `t\n🦀`));\n";
+  for (j, k) in ["call_expression>number", "number<arguments", "string<array", "template_string<call_expression", "arguments>template_string"].iter().enumerate() {
+    let (style, ctx) = [("stream", (0, 0, false)), ("compact", (1, 1, true)), ("pretty", (0, 1, false))][j % 3];
+    cases.push(Case { id: format!("labels-{k}"), files: vec![("src/t.js".to_string(), reltext.to_string())], lang: "JavaScript", pattern: String::new(), rewrite: None, ctx, style, scan: true, kind: Some(k.to_string()) });
+  }
   // documents inside documents: JavaScript / CSS embedded in an html file (offsets are those of the file, not of the
   // embedded document), behind multi-byte text, with CRLF
   let html = "<html><head><title>é中🦀</title>\n<style>\na { color: red; }\n</style></head>\n<body>\n<p>foo(text) é</p>\n<script>\nfoo(1);\n  bar(\"é\", foo(2));\n</script>\n<script lang=\"ts\">\nfoo(3)\n</script></body></html>\n";
@@ -264,10 +284,12 @@ pub fn drive(corpus: &str, seed: u64, out: &str, thorough: bool) {
   let _ = std::fs::remove_dir_all(&scratch);
   let mut w = NdWriter::new(out);
   let mut items = 0;
+  let mut labels = 0;
   for r in &recs {
+    labels += r["items"].as_array().map(|a| a.iter().map(|x| x["nlabels"].as_u64().unwrap_or(0)).sum::<u64>()).unwrap_or(0);
     items += r["items"].as_array().map(|a| a.len()).unwrap_or(0) + r["entries"].as_array().map(|a| a.len()).unwrap_or(0);
     w.put(r);
   }
   let n = w.finish();
-  util::summary(json!({"records": n, "cli_runs": n, "items_and_entries": items}));
+  util::summary(json!({"records": n, "cli_runs": n, "items_and_entries": items, "secondary_labels_judged": labels}));
 }
